@@ -187,16 +187,16 @@ def probe_race(ctx, suite, cases, tag):
 
 
 def check_C12(ctx):
-    ctx.build(["Properties/C12.vo"], "Properties/C12.v")
+    ctx.build(["Proofs/TieGlobals.vo", "Properties/C12.vo"], "Properties/C12.v")
     rng = random.Random(ctx.seed * 12007 + 12)
     if not build_race(ctx):
         ctx.broken.append(("correspondence", "race-enabled build of the harness", "go build -race failed"))
         return ctx.finish()
     # pipeline: many diagnostics while later chunks are still being read
-    many = b"".join(b"print %d +\nprint *\nvar v%d = )\n" % (i, i) for i in range(ctx.n(600, 15000)))
-    inputs = {"many_syntax": many, "valid_big": b"var x = 1\nprint x + 1\n" * ctx.n(500, 20000),
+    many = b"".join(b"print %d +\nprint *\nvar v%d = )\n" % (i, i) for i in range(ctx.n(600, 3000)))
+    inputs = {"many_syntax": many, "valid_big": b"var x = 1\nprint x + 1\n" * ctx.n(500, 5000),
               "early_fail": b"print @\n" + b"print 1\n" * 2000,
-              "late_fail": b"print 1 +\n" * ctx.n(800, 5000) + b"print 12abc\n"}
+              "late_fail": b"print 1 +\n" * ctx.n(800, 3000) + b"print 12abc\n"}
     cases = []
     for name, data in inputs.items():
         for j, sc in enumerate([[["d", 7]] * 4000, [["d", 1]] * 3000, [["d", 50], ["z", 0]] * 500, [], [["d", 4096]] * 3]):
